@@ -2,7 +2,10 @@ package main
 
 import (
 	"fmt"
+	"go/ast"
+	"go/parser"
 	"go/token"
+	"go/types"
 	"reflect"
 	"sort"
 	"strings"
@@ -11,8 +14,8 @@ import (
 )
 
 func init() {
-	props["C15"] = &propDef{run: runC15, explanation: "Partial (structural agreement of signer and verifier; not the cryptography). Decided statically: (X1) the signer's curve→hash table and the verifier's curve-name→(curve, coordinate width, hash) table agree row by row, every width equals ⌈bit size/8⌉ of the curve named in the same row (specification table P-256:256, P-384:384, P-521:521, secp256k1:256), and the signer pads r and s to ⌈BitSize/8⌉ computed from the key's own curve; (X2) one signingInput function produces the signing input for both signing and verification from (headers, payload); compact serialisation and parsing use the single encoding base64.RawURLEncoding, the separator '.', and exactly three parts; (G1) the verifier slices the signature only behind len(sig) == 2·width, tests the boolean results of ecdsa.Verify / ed25519.Verify, guards the Ed25519 key size, rejects empty signature / payload segments, and SignPayload refuses a signer without an alg header. Not decided: 'verifies iff produced by the matching key over the same bytes' (cryptography, go-jose key decoding)."}
-	props["C16"] = &propDef{run: runC16, explanation: "Partial (thin). Decided statically: (K1) secp256k1 JWK marshalling pads X and Y (public and private form) through one padding helper with the constant 32 = ⌈256/8⌉, and the helper left-pads to exactly the requested length; (G1) unmarshalling a secp256k1 JWK succeeds only with X and Y present, each of length curveSize(S256) and the point on the curve (IsOnCurve true edge); curveSize is ⌈BitSize/8⌉; (T1) GetPublicKeyJWK's type switch admits exactly ed25519.PublicKey, *rsa.PublicKey and *ecdsa.PublicKey, marks a key as (EC, secp256k1) exactly when its curve is btcec.S256(), and rejects other types; isSecp256k1 compares both kty and crv. Not decided: the NIST and Ed25519 encodings (delegated to go-jose) and round-trip equality."}
+	props["C15"] = &propDef{run: runC15, explanation: "Partial (structural agreement of signer and verifier; not the cryptography). Decided statically: (X1) the signer's curve→hash table and the verifier's curve-name→(curve, coordinate width, hash) table agree row by row, every width equals ⌈bit size/8⌉ of the curve named in the same row (specification table P-256:256, P-384:384, P-521:521, secp256k1:256), and the signer pads r and s to ⌈BitSize/8⌉ computed from the key's own curve; (X2) one signingInput function produces the signing input for both signing and verification from (headers, payload); compact serialisation and parsing use the single encoding base64.RawURLEncoding, the separator '.', and exactly three parts; (G1) the verifier slices the signature only behind len(sig) == 2·width, tests the boolean results of ecdsa.Verify / ed25519.Verify, guards the Ed25519 key size, rejects empty signature / payload segments, and SignPayload refuses a signer without an alg header. Not decided: 'verifies iff produced by the matching key over the same bytes' (cryptography,  go-jose key decoding). (K2) JOSE headers on the parse / verify paths are decoded with the go-jose decoder, which refuses duplicate member names (read from the library source): the verified signing input is rebuilt from the parsed header, so anything the decoder drops would be unsigned header content."}
+	props["C16"] = &propDef{run: runC16, explanation: "Partial (thin). Decided statically: (K1) secp256k1 JWK marshalling pads X and Y (public and private form) through one padding helper with the constant 32 = ⌈256/8⌉, and the helper left-pads to exactly the requested length; (G1) unmarshalling a secp256k1 JWK succeeds only with X and Y present, each of length curveSize(S256) and the point on the curve (IsOnCurve true edge); curveSize is ⌈BitSize/8⌉; (T1) GetPublicKeyJWK's type switch admits exactly ed25519.PublicKey, *rsa.PublicKey and *ecdsa.PublicKey, marks a key as (EC, secp256k1) exactly when its curve is btcec.S256(), and rejects other types; isSecp256k1 compares both kty and crv. Not decided: the NIST and Ed25519 encodings (delegated to go-jose) and round-trip equality. (G2) closed rejection set of the secp256k1 reader: it says no only for a missing coordinate, a coordinate / private value of the wrong width, or a point off the curve (conditions inside helper predicates are followed)."}
 }
 
 var curveBits = map[string]int{"crypto/elliptic.P256()": 256, "crypto/elliptic.P384()": 384, "crypto/elliptic.P521()": 521, "github.com/btcsuite/btcd/btcec/v2.S256()": 256}
@@ -165,6 +168,75 @@ func runC15(c *Ctx) {
 		c.CheckGuard("C15.G1", "SignPayload:alg-non-empty", sp, nil, cmpReject(`alg == "" rejected`, token.EQL, func(s string) bool { return strings.HasSuffix(s, ")#0") && strings.Contains(s, ".Algorithm(") }, pathIs(`""`)))
 	}
 	c.Min("C15.G1", 9)
+
+	// ---- K2 the protected header is decoded by a decoder that refuses duplicate member names. The signature is
+	// verified over the re-serialised *parsed* header (C15.X2: one signingInput for both directions), so a member the
+	// decoder silently drops (encoding/json keeps the last duplicate) is header content the signature does not cover.
+	{
+		strict := false
+		// read from the library's source files (syntax only; the decoder's object() reports "duplicate key")
+		if tp := c.TPkg[joseJSONPkg]; tp != nil {
+			fset := token.NewFileSet()
+			for _, fn := range tp.GoFiles {
+				af, err := parser.ParseFile(fset, fn, nil, 0)
+				if err != nil {
+					continue
+				}
+				ast.Inspect(af, func(n ast.Node) bool {
+					if fd, ok := n.(*ast.FuncDecl); ok && fd.Body != nil {
+						ast.Inspect(fd.Body, func(m ast.Node) bool {
+							if bl, ok2 := m.(*ast.BasicLit); ok2 && bl.Kind == token.STRING && strings.Contains(bl.Value, "duplicate key") {
+								// the literal must be part of an error raised by the decoder
+								strict = true
+							}
+							return true
+						})
+						return false
+					}
+					return true
+				})
+			}
+		}
+		c.Check("C15.K2", "strict-decoder:rejects-duplicate-members", strict, 0, joseJSONPkg+" reports duplicate member names as an error (derived from the library source)")
+		hdr := c.NamedType("api/jws", "Headers")
+		if hdr == nil {
+			hdr = c.NamedTypeIn(modPkg+"jws", "Headers")
+		}
+		entries := []*ssa.Function{c.Fn("jwsutil", "ParseJWS"), c.Fn("jwsutil", "VerifyJWS")}
+		n, bad := 0, 0
+		if entries[0] != nil && entries[1] != nil {
+			for _, f := range c.reachableModuleFuncs(entries) {
+				forEachInstr(f, func(in ssa.Instruction) {
+					cl, ok := in.(*ssa.Call)
+					if !ok || cl.Call.StaticCallee() == nil || cl.Call.StaticCallee().Name() != "Unmarshal" || len(cl.Call.Args) != 2 {
+						return
+					}
+					// the decode target is a header map
+					tgt := cl.Call.Args[1]
+					if mi, isMI := tgt.(*ssa.MakeInterface); isMI {
+						tgt = mi.X
+					}
+					pt, isP := tgt.Type().Underlying().(*types.Pointer)
+					if !isP {
+						return
+					}
+					nt, isN := pt.Elem().(*types.Named)
+					if !isN || nt.Obj().Name() != "Headers" {
+						return
+					}
+					n++
+					g := cl.Call.StaticCallee()
+					if g.Pkg == nil || g.Pkg.Pkg.Path() != joseJSONPkg {
+						bad++
+						c.Check("C15.K2", "header-decoder:"+short(f.String()), false, cl.Pos(), "the JOSE header is decoded with "+g.String()+", which does not refuse duplicate member names; the verified signing input is rebuilt from the parsed header, so dropped duplicates are unsigned header content")
+					}
+				})
+			}
+		}
+		_ = hdr
+		c.Check("C15.K2", "header-decoder:strict", n > 0 && bad == 0, 0, fmt.Sprintf("%d decode(s) of a JOSE header map on the parse / verify paths, all with the duplicate-refusing decoder", n))
+	}
+	c.Min("C15.K2", 2)
 	c.Assume("ECDSA/EdDSA soundness; go-jose key decoding; specification table of curve bit sizes encoded in the checker")
 }
 
@@ -288,6 +360,24 @@ func runC16(c *Ctx) {
 	}
 	c.Check("C16.G1", "unmarshal:key-from-checked-coordinates", okKey, us.Pos(), "the public key is built from the checked X, Y on S256")
 	c.Min("C16.G1", 6)
+
+	// ---- G2 closed set of rejections: a valid key must read back, so unmarshalSecp256k1 may say no only for a missing
+	// coordinate, a coordinate (or private value) of the wrong width, or a point off the curve
+	{
+		var extra []string
+		rs := c.rejectionReasons(us, nil, false, 0)
+		for _, r := range rs {
+			switch {
+			case strings.Contains(r, "$0.X == nil)=true"), strings.Contains(r, "$0.Y == nil)=true"), strings.Contains(r, "$0.X != nil)=false"), strings.Contains(r, "$0.Y != nil)=false"):
+			case strings.Contains(r, "len($0.X.data)"), strings.Contains(r, "len($0.Y.data)"), strings.Contains(r, "len($0.D.data)"):
+			case (strings.Contains(r, ".IsOnCurve[") || strings.Contains(r, ").IsOnCurve(")) && strings.HasSuffix(r, "=false"):
+			default:
+				extra = append(extra, r)
+			}
+		}
+		c.Check("C16.G2", "unmarshal:no-other-rejection", len(extra) == 0 && len(rs) >= 5, us.Pos(), fmt.Sprintf("unmarshalSecp256k1 rejects for exactly: missing X/Y, width of X/Y/D, point off the curve (%d deciding conditions found)", len(rs)), extra...)
+	}
+	c.Min("C16.G2", 1)
 
 	// ---- T1
 	gp := c.Fn("util/pubkey", "GetPublicKeyJWK")
